@@ -16,6 +16,19 @@ Theorem C14_quote_lex_roundtrip : forall q s t rest,
 Proof. exact quote_lex_roundtrip_proof. Qed.
 Print Assumptions C14_quote_lex_roundtrip.
 
+(* the same for quoted_name objects: quote=True is ALWAYS quoted and reads back as the quoted identifier; quote=False is
+   emitted raw, which reads back as the name only if the name needs no quotes (that is what name_ok_f asks of it) *)
+Theorem C14_quoted_name_roundtrip : forall q f s t rest,
+  qspec_wf q = true -> name_ok_f q f s = true -> quote_f q f s = Some t -> sep_ok q rest ->
+  lex q (t ++ rest) = ident_token_f q f s :: lex q rest.
+Proof. intros q f s t rest W N Q S. exact (closed_then q t _ rest (quote_f_closed q f s t W N Q) S). Qed.
+Print Assumptions C14_quoted_name_roundtrip.
+
+Theorem C14_forced_flags : forall q s,
+  quote_f q QTrue s = Some (quote_identifier q s) /\ quote_f q QFalse s = Some s /\ ident_token_f q QTrue s = QIdent s.
+Proof. intros. repeat split. Qed.
+Print Assumptions C14_forced_flags.
+
 (* '...' with _sql_literal's doubling reads back as the literal of exactly that string *)
 Theorem C14_strlit_roundtrip : forall q s rest,
   q_bslash q = false -> (q_open q =? 39) = false -> sep_ok q rest ->
@@ -24,10 +37,11 @@ Proof. exact strlit_roundtrip_proof. Qed.
 Print Assumptions C14_strlit_roundtrip.
 
 (* format_table_name: the schema chain, dot separated, then the table *)
-Theorem C14_format_table_roundtrip : forall q name sc t,
-  qspec_wf q = true -> name_ok q name = true -> schema_ok q sc = true -> format_table_name q name sc = Some t ->
-  lex q t = schema_tokens q sc ++ [ident_token q name].
-Proof. intros q name sc t W N S F. now destruct (format_table_closed q name sc t W N S F). Qed.
+Theorem C14_format_table_roundtrip : forall q fn name fs sc t,
+  qspec_wf q = true -> name_ok_f q fn name = true -> schema_ok q fs sc = true ->
+  format_table_name q fn name fs sc = Some t ->
+  lex q t = schema_tokens q fs sc ++ [ident_token_f q fn name].
+Proof. intros q fn name fs sc t W N S F. now destruct (format_table_closed q fn name fs sc t W N S F). Qed.
 Print Assumptions C14_format_table_roundtrip.
 
 (* str.strip() of a lexically closed text whose tokens contain no stray non-ASCII white space changes no token *)
@@ -48,7 +62,7 @@ Print Assumptions C14_decider_sound.
 (* for ANY well-formed list of pieces, any quoting parameters, any names of the class: the rendered statement reads
    back as exactly the expected tokens, is lexically closed, and contains no tab *)
 Theorem C14_visitor_sound : forall q e v sql,
-  visitor_wf q v = true -> env_ok q e = true -> render q e v = ROk sql ->
+  visitor_wf q v = true -> env_ok q e = true -> sa_ok v e = true -> render q e v = ROk sql ->
   lex q sql = expected_tokens q e v /\ pending (end_st q sql) = true /\ notab sql = true
   /\ forallb tok_nospace (expected_tokens q e v) = true /\ raises v = false.
 Proof. exact visitor_sound. Qed.
@@ -65,6 +79,17 @@ Theorem C14_main : forall d c e, env_ok (qspec_of d) e = true -> C14_holds (d, c
 Proof. intros d c e E. exact (main_generic d c e (wf_table d c) E). Qed.
 Print Assumptions C14_main.
 
+(* the same without the `judged` guard of C14_holds: on the class where the statement is unconditional *)
+Theorem C14_main_strict : forall d c e, env_ok (qspec_of d) e = true -> sa_ok (visitor d c) e = true ->
+  C14_strict (d, c, e) (emit_stmt (d, c, e)).
+Proof. intros d c e E SA. exact (main_strict d c e (wf_table d c) E SA). Qed.
+Print Assumptions C14_main_strict.
+
+(* sa_ok only ever speaks about the MySQL/MariaDB DROP CHECK visitor (the one that calls SQLAlchemy's format_table) *)
+Theorem C14_sa_ok_trivial : forall d c e, uses_sa c = false -> sa_ok (visitor d c) e = true.
+Proof. exact no_sa. Qed.
+Print Assumptions C14_sa_ok_trivial.
+
 Theorem C14_main_cases : forall c, inclass_C14 c = true -> C14_case_holds c (model_C14 c).
 Proof. exact model_holds. Qed.
 Print Assumptions C14_main_cases.
@@ -80,17 +105,20 @@ Print Assumptions C14_emits.
 
 (* each piece of the visitor is found in the statement: every table reference with its schema chain, every column *)
 Theorem C14_every_piece_reads_back : forall d c e sql off p,
-  env_ok (qspec_of d) e = true -> emit_stmt (d, c, e) = OutSql sql off -> In p (visitor d c) ->
+  env_ok (qspec_of d) e = true -> sa_ok (visitor d c) e = true -> emit_stmt (d, c, e) = OutSql sql off ->
+  In p (visitor d c) ->
   exists pre post, lex (qspec_of d) sql = pre ++ piece_tokens (qspec_of d) e p ++ post.
 Proof. exact piece_read_back. Qed.
 Print Assumptions C14_every_piece_reads_back.
 
 Theorem C14_schema_qualifies_every_table : forall d c e sql off sch,
-  env_ok (qspec_of d) e = true -> emit_stmt (d, c, e) = OutSql sql off -> In (Tbl NTable sch) (visitor d c) ->
+  env_ok (qspec_of d) e = true -> sa_ok (visitor d c) e = true -> emit_stmt (d, c, e) = OutSql sql off ->
+  In (Tbl NTable sch) (visitor d c) ->
   exists pre post, lex (qspec_of d) sql =
-    pre ++ (schema_tokens (qspec_of d) (e_schema e) ++ [ident_token (qspec_of d) (e_table e)]) ++ post.
+    pre ++ (schema_tokens (qspec_of d) (sflag e) (e_schema e)
+            ++ [ident_token_f (qspec_of d) (flag e NTable) (e_table e)]) ++ post.
 Proof.
-  intros d c e sql off sch E M I. destruct (piece_read_back d c e sql off _ E M I) as (pre & post & H).
+  intros d c e sql off sch E SA M I. destruct (piece_read_back d c e sql off _ E SA M I) as (pre & post & H).
   exists pre, post. rewrite H. cbn [piece_tokens]. unfold table_tokens. cbn [is_ref slot]. now rewrite orb_true_r.
 Qed.
 Print Assumptions C14_schema_qualifies_every_table.
@@ -146,6 +174,22 @@ Theorem C14_refuted_trailing_newline : exists i, ~ C14_holds i (emit_stmt i).
 Proof. exists w_nl. exact (refuted w_nl w_nl_fails). Qed.
 Print Assumptions C14_refuted_trailing_newline.
 
+(* ---- what delimits the class: two kinds of input the property does not judge (NOT refutations of the property; the
+   model and the exact comparison still cover them, C14_holds is vacuous there) ---- *)
+
+(* quoted_name(name, quote=False) with a name that needs quotes: the caller's explicit opt-out, emitted raw *)
+Theorem C14_outside_forced_unquoted :
+  exists i, judged i = false /\ ~ C14_strict i (emit_stmt i) /\ C14_holds i (emit_stmt i).
+Proof. exists w_unq. exact (outside w_unq w_unq_outside). Qed.
+Print Assumptions C14_outside_forced_unquoted.
+
+(* MySQL DROP CHECK with a plain dotted schema: SQLAlchemy's format_table emits `db.sch`.t (one identifier), alembic's own
+   helpers emit db.sch.t; MySQL has no three-part names and the property does not fix which reading is expected *)
+Theorem C14_outside_sa_dotted_schema :
+  exists i, judged i = false /\ ~ C14_strict i (emit_stmt i) /\ C14_holds i (emit_stmt i).
+Proof. exists w_sa. exact (outside w_sa w_sa_outside). Qed.
+Print Assumptions C14_outside_sa_dotted_schema.
+
 (* the two visitors repaired by the "fix:" commits, as they were: not well-formed, with a failing witness *)
 Theorem C14_old_oracle_comment_rejected :
   visitor_wf (qspec_of Oracle) old_oracle_column_comment = false /\
@@ -167,7 +211,7 @@ Print Assumptions C14_old_mssql_literal_rejected.
 
 Definition nv_env : env :=
   mkEnv (Some (s2l "My.sch x")) (s2l "it's ]a""b`") (s2l "New T") (s2l "select") (s2l "naive col")
-        [s2l "VARCHAR(5)"; s2l "'x y'"; s2l "'c''m'"].
+        [s2l "VARCHAR(5)"; s2l "'x y'"; s2l "'c''m'"] (mkFlags Plain QTrue QNone Plain Plain).
 
 Example C14_main_nonvacuous :
   forallb (fun d => env_ok (qspec_of d) nv_env) all_dialects = true /\
@@ -201,7 +245,8 @@ Example C14_inner_sql_nonvacuous :
      QIdent (s2l "it's ]a""b`"); Word (s2l "drop"); Word (s2l "constraint")].
 Proof. split; [vm_compute; tauto|]. split; vm_compute; reflexivity. Qed.
 
-Definition nv_names : names := mkNames (Some (s2l "My.sch x")) (s2l "it's ]a""b`") (s2l "New T") (s2l "select") (s2l "naive col").
+Definition nv_names : names :=
+  mkNames (Some (s2l "My.sch x")) (s2l "it's ]a""b`") (s2l "New T") (s2l "select") (s2l "naive col") no_flags.
 Definition nv_req : areq := mkReq TFalse DSet true true DKeep TNone true TNone DSet false false false.
 
 Example C14_op_main_nonvacuous :
@@ -211,6 +256,19 @@ Example C14_op_main_nonvacuous :
                       [[s2l "VARCHAR(5)"]; [s2l "sys.default_constraints"]; [s2l "'x y'"]; []])) = 4%nat /\
   length (fst (run_op Mysql (OpAlterColumn nv_req) nv_names [[s2l "VARCHAR(5)"; s2l "'x y'"; s2l ""]])) = 1%nat.
 Proof. repeat split; vm_compute; reflexivity. Qed.
+
+Example C14_depth_nonvacuous :
+  (* quoted_name flags, the MySQL/MariaDB DROP CHECK wrapper, the PostgreSQL alter-identity loop *)
+  env_ok (qspec_of Mariadb) nv_env = true /\ sa_ok (visitor Mariadb CMysqlDropCheck) nv_env = false /\
+  (let e := mkEnv (Some (s2l "My Schema")) (s2l "select") (s2l "n") (s2l "ck 1") (s2l "x") [] (mkFlags QTrue QFalse Plain QNone Plain) in
+   env_ok (qspec_of Mariadb) e = false /\
+   (let e' := mkEnv (Some (s2l "My.Schema")) (s2l "tbl") (s2l "n") (s2l "ck 1") (s2l "x") [] (mkFlags QTrue QFalse Plain QNone Plain) in
+    env_ok (qspec_of Mariadb) e' = true /\ sa_ok (visitor Mariadb CMysqlDropCheck) e' = true /\
+    exists sql off, emit_stmt (Mariadb, CMysqlDropCheck, e') = OutSql sql off)) /\
+  (exists sql off, emit_stmt (Postgresql, CIdentityAlter [Some true; None; None],
+                              mkEnv None (s2l "t") (s2l "n") (s2l "Col") (s2l "x") [s2l "START WITH 5"; s2l "CYCLE"] no_flags)
+                   = OutSql sql off).
+Proof. repeat split; try (vm_compute; reflexivity); eexists; eexists; vm_compute; reflexivity. Qed.
 
 Example C14_strip_lex_nonvacuous :
   pending (end_st (qspec_of Postgresql) (s2l "ALTER TABLE t ALTER COLUMN c TYPE INTEGER ")) = true /\
